@@ -59,6 +59,11 @@ CLAIMED = {
          "Request targets are written verbatim by a raw client (dot segments, single/double percent-encodings, encoded slashes and backslashes, //, ;params, authority tricks, absolute-form targets and query values naming a decoy listener) against endpoints with empty, '/', and nested base paths, preserve_path on/off, two route prefixes and both engines; the decoy must never be contacted, the raw backend's request line must stay under the base path when preserve_path is set, clean targets must arrive at exactly base+remaining (or remaining) with the query verbatim; generated relative/absolute health_check_url / model_url values are resolved by LoadFromConfig and must keep scheme/host and stay under the base path.",
          "Unclean targets may be answered by the mux without backend contact (not a violation); Host header is not asserted; one listed known finding (percent-encoded dot segments under preserve_path) is tolerated by exact signature.",
          "DESIGN.md §3 C16"),
+ "C04": ("fault_enumeration",
+         "enumeration of per-candidate outcome tuples with fault-injecting backends + rapid-generated histories; attempt-count / fingerprint / status / follow-up oracle",
+         "Every assignment of {ok, refuse, reset-before-headers, circuit-open} (asserted) and {closed-without-answer, garbage} (explored) to up to 3 candidates is run on 3 balancers x 2 engines through the full stack; rapid adds bodies, methods and warm-up histories. With a working candidate and otherwise connection-level failures or skips the client must get that candidate's untouched answer (X-Olla-Endpoint naming it), every backend sees the identical request at most once, a failing request must have tried every candidate, failed endpoints are non-routable afterwards, receive none of five follow-up requests and are readmitted by a health check.",
+         "The engine breaker is opened through its exported API (RecordFailure x5); refused dials cannot be observed at the backend, only through statuses.",
+         "DESIGN.md §3 C04"),
  "C06": ("exploration",
          "rapid-generated endpoint lists against a reference selector model; concurrent fairness counting",
          "Selectors obtained from balancer.Factory over a real stats collector are judged against reference rules on generated lists (n<=5, all statuses, priorities, gauge vectors) sequentially and from up to 32 goroutines: member-or-error, top-tier only and every tier member reached, exact k-per-member round-robin fairness over any window, minimal gauge for least-connections.",
